@@ -20,6 +20,9 @@ def explore(ctx):
                        exhaustive=(5, 6) if ctx.quick else (7, 8))
     cc.decimal_stream(ctx, 1500 if ctx.quick else 15000)
     cc.decimal_stream(ctx, 1500 if ctx.quick else 15000, sum_negative=True)
+    # an adjacency object used for several arrays must give each the leaves it would get alone
+    from . import grid_common
+    grid_common.reused_adjacency_stream(ctx, 100 if ctx.quick else 1000)
 
 
 def shrink(case, fails, extra):
